@@ -209,11 +209,13 @@ PROPS["C05"] = {
         {"name": "c05_rejoin_incremental", "fn": "c05_rejoin", "params": {"quick": {"ops": 2, "full": 0}, "thorough": {"ops": 3, "full": 0}}, "budget_s": {"quick": 900, "thorough": 7200}},
         {"name": "c05_rejoin_full", "fn": "c05_rejoin", "params": {"quick": {"ops": 2, "full": 1}, "thorough": {"ops": 3, "full": 1}}, "budget_s": {"quick": 900, "thorough": 7200}},
         {"name": "c05_rejoin_incremental_around_create_db", "fn": "c05_rejoin", "params": {"quick": {"ops": 3, "full": 0, "mid": 1}}, "budget_s": {"quick": 900, "thorough": 7200}},
+        {"name": "c05_write_during_full_sync", "fn": "c05_write_during_sync", "params": {"quick": {"full": 1, "preemptions": 3}, "thorough": {"full": 1, "preemptions": 4}}, "covers": ["sync-race.live-copy-sent", "sync-race.catch-up-after-live-copy"]},
+        {"name": "c05_write_during_incremental_sync", "fn": "c05_write_during_sync", "params": {"quick": {"full": 0, "preemptions": 2}, "thorough": {"full": 0, "preemptions": 3}}, "covers": ["sync-race.live-copy-sent"]},
         {"name": "c05_join_empty", "fn": "c05_rejoin", "params": {"quick": {"ops": 1, "full": 1, "empty_joiner": 1}, "thorough": {"ops": 2, "full": 1, "empty_joiner": 1}}, "budget_s": {"quick": 900, "thorough": 7200}},
     ],
     "bounds": {"quick": "primary + one secondary with a common replicated history (database d, keys a, b, a user with a permission list); also a node joining with an empty disk (full sync into a fresh node); the secondary leaves; 2 operations on the primary from {set a v, set new key v, remove a, remove new key, create-db e (arbiter), increment b} with symbolic values (<= 3 printable chars, spaces and digits included) while the primary's real replication loop writes the op-log; then the catch-up list of get_pendding_opps_since (incremental: since = Oplog::last_op_time at departure; full: since = 0) is fed line by line through the joiner's process_request; databases and live keys, values byte for byte, versions, token and strategy of new databases are compared",
                "thorough": "3 operations"},
-    "outside": "writes accepted by the primary during the synchronisation; several rotated op-log files (C12); restart of the primary between departure and return (C16); both nodes share one data directory in the model (the joiner's own op-log is not read)",
+    "outside": "more than one write during the synchronisation (c05_write_during_*: one client write racing the real supervisor's replicate-since-to arm, interleavings at lock-acquisition and channel-send granularity with at most 3 (full) / 2 (incremental) preemptive context switches, judged on the link); several rotated op-log files (C12); restart of the primary between departure and return (C16); both nodes share one data directory in the model (the joiner's own op-log is not read)",
     "assumptions": ["environment shims", "the joiner's last operation time equals the primary's newest record at departure"],
 }
 
